@@ -548,6 +548,7 @@ fn exec_and_fold(t: &RecorderTrace, scratch: &Scratch, rec: &mut RunRecord, seed
         let (f, cls, st) = run_stream(t);
         return fold(t, None, f, Some((cls, st)), rec, seed, index, prop);
     }
+    crate::crash::write_current_trace(&Trace::Recorder(t.clone()));
     let o = run_recorder(t, scratch);
     let f = judge_recorder(t, &o);
     fold(t, Some(&o), f, None, rec, seed, index, prop)
